@@ -41,3 +41,6 @@ chk("C10", "exploration", "differential schema monitor: grammar-generated DDL ex
 chk("C18", "exploration", "runtime monitors: Row.Scan conversion grid vs an independent model of the documented rules + value-lifetime history in a child process (overwrite scanned slices, re-read, close, destroy file, GC)",
     "Every (grid value, destination kind) pair, PRNG rows x destination lists with arities 0..width+2, shortcuts; lifetime histories over all rows of generated databases. Held on the pairs and histories run.",
     "numbers convert by Go conversion on this platform; first-read values are validated against SQLite by C01", "DESIGN.md 3 C18")
+chk("C07", "exploration", "schedule-controlled runtime monitor: real SQLite writer frozen before every file/lock syscall (LD_PRELOAD shim), lock state observed in /proc/locks, all reads compared with SQLite's own view from another process",
+    "Enumerates every syscall boundary of the writer's transaction for 4 (quick) / ~46 (thorough) scenario x journal-mode x page-size combinations incl. spill, stale PERSIST journal and the PENDING-without-EXCLUSIVE window; two reader kinds per point. Two-party schedules at syscall granularity, not all N-party interleavings.",
+    "/proc/locks is truthful; python sqlite3 3.40.1 is the writer and the reference reader", "DESIGN.md 3 C07")
